@@ -12,7 +12,7 @@ Line-protocol driver for C17. One request per line: `<op> <int params…> <molec
   mbs    lo hi len nab       M   → ints                             (`morgan_bit_set`)
   fold   len nab h h h …         → ints   (the folding of arbitrary Python ints, no molecule)
   hash   x x x …                 → int    (`hash(tuple)`)
-Errors: `err:KeyError | err:ValueError | err:AssertionError | err:fuel`, `bad-request`, `not-wf`.
+Errors: `err:KeyError | err:ValueError | err:AssertionError | err:fuel`, `bad-request`.
 -/
 open ChythonModel.Py ChythonModel.Model ChythonModel.Model.Fingerprint
 
@@ -27,10 +27,6 @@ def withMol (xs : List Int) (k : Mol → String) : String :=
   | some (m, []) => k m
   | _ => "bad-request"
 
-/-- the linear entry points are modelled on well-formed graphs only (`Mol.WF`, the `Graph` invariant) -/
-def withMolWF (xs : List Int) (k : Mol → String) : String :=
-  withMol xs fun m => if m.WF then k m else "not-wf"
-
 def handle (line : String) : String :=
   match words line with
   | [] => "bad-request"
@@ -44,13 +40,13 @@ def handle (line : String) : String :=
       | "fold", len :: nab :: hs =>
         if len ≤ 0 then Err.valueError.render else "ok " ++ showNats (activeBits len.toNat nab (toSet hs))
       | "ident", xs => withMol xs fun m => "ok " ++ showDict (atomIdentifiers H m)
-      | "chains", lo :: hi :: xs => withMolWF xs fun m =>
+      | "chains", lo :: hi :: xs => withMol xs fun m =>
           showRes (fun ps => " ".intercalate (ps.map showPath)) (chains m lo hi)
-      | "frags", lo :: hi :: xs => withMolWF xs fun m =>
+      | "frags", lo :: hi :: xs => withMol xs fun m =>
           showRes (fun (d : FragDict) => "|".intercalate (d.map fun (k, ps) =>
             ",".intercalate (k.map toString) ++ "=" ++ ";".intercalate (ps.map showPath))) (fragments H m lo hi)
-      | "lhs", lo :: hi :: nbp :: xs => withMolWF xs fun m => showRes showInts (linearHashSet H m lo hi nbp)
-      | "lbs", lo :: hi :: len :: nab :: nbp :: xs => withMolWF xs fun m =>
+      | "lhs", lo :: hi :: nbp :: xs => withMol xs fun m => showRes showInts (linearHashSet H m lo hi nbp)
+      | "lbs", lo :: hi :: len :: nab :: nbp :: xs => withMol xs fun m =>
           showRes showNats (linearBitSet H m lo hi len nab nbp)
       | "mdict", lo :: hi :: xs => withMol xs fun m =>
           showRes (fun ds => String.join (ds.map fun d => "/ " ++ showDict d ++ " ")) (morganHashDict H m lo hi)
